@@ -232,3 +232,9 @@ def time_match(V, lags, master):
             else:
                 out.prove('compared-samples-coincide-after-alignment (signal %d)' % j, T.sor(*alts))
         out.unchanged('x', x)
+
+
+from pyvc.api import int_variant
+int_variant('C18', 'combine_at_angle', ['ns', 'we'])
+int_variant('C18', 'Cluster.same_start', ['x0', 'x1', 'x2', 'x3'])
+int_variant('C18', 'Cluster.time_match', ['x', 'pad0', 'pad1'])
